@@ -1,4 +1,5 @@
 import OxiVerif.Lemmas.C12
+import OxiVerif.Lemmas.C12Bytes
 set_option linter.unusedSimpArgs false
 set_option linter.unusedVariables false
 /-!
@@ -310,17 +311,14 @@ example : cffSubset (fun c => if c = 65 then some 9 else if c = 66 then some 4 e
 
 /-! ## 4. `loca`: the byte-level step below the abstraction
 
-/- FULL: for every list of glyph lengths and either format, a reader of the written `loca`
-   recovers the glyph offsets:  `readLoca short (locaEntries short offs) = offs`.  -/
-This is FALSE for the code as it is: `build_subset_font` appends instruction-stripped glyphs
-without padding and, when the original font used the short format, stores `offset / 2` — an odd
-offset is rounded down and every reader then cuts the glyph one byte early / late
-(known finding C12-F1, observed on LiberationSans-Regular.ttf). -/
+`build_subset_font` appends the instruction-stripped glyphs, pads each to an even length, and —
+when the original font used the short format — stores `offset / 2`.  Every reader of the written
+table recovers the glyph offsets, in both formats, for EVERY list of glyph lengths. -/
 
 theorem C12_loca_long_roundtrip (offs : List Nat) : readLoca false (locaEntries false offs) = offs := by
   simp [readLoca, locaEntries]
 
-theorem C12_loca_short_roundtrip_partial (offs : List Nat) (heven : ∀ o ∈ offs, o % 2 = 0) :
+theorem C12_loca_short_roundtrip_even (offs : List Nat) (heven : ∀ o ∈ offs, o % 2 = 0) :
     readLoca true (locaEntries true offs) = offs := by
   simp only [readLoca, locaEntries, if_true, List.map_map]
   conv => rhs; rw [← List.map_id offs]
@@ -330,12 +328,37 @@ theorem C12_loca_short_roundtrip_partial (offs : List Nat) (heven : ∀ o ∈ of
   simp
   omega
 
-example : ∀ o ∈ glyphOffsets 0 [42, 60, 0, 118], o % 2 = 0 := by decide
+/-- every glyph offset the subsetter produces is even (whatever the glyph lengths are) -/
+theorem C12_glyph_offsets_even (lens : List Nat) (cur : Nat) (hc : cur % 2 = 0) :
+    ∀ o ∈ glyphOffsets cur lens, o % 2 = 0 := by
+  induction lens generalizing cur with
+  | nil => intro o ho; simp [glyphOffsets] at ho; omega
+  | cons l ls ih =>
+    intro o ho
+    simp only [glyphOffsets, List.mem_cons] at ho
+    rcases ho with rfl | ho
+    · exact hc
+    · exact ih (padEven (cur + l)) (by unfold padEven; omega) o ho
 
-/-- counter-witness: two glyphs of 41 and 60 bytes (41 = a 42-byte glyph whose 1-byte hinting
-    program was stripped) in the short format — the second glyph is read from offset 40, not 41 -/
+/-- FULL: the short `loca` written for a subset reads back to the exact glyph offsets, for every
+    list of glyph lengths (odd lengths after instruction stripping included). -/
+theorem C12_loca_short_roundtrip (lens : List Nat) :
+    readLoca true (locaEntries true (glyphOffsets 0 lens)) = glyphOffsets 0 lens :=
+  C12_loca_short_roundtrip_even _ (C12_glyph_offsets_even lens 0 rfl)
+
+/-- the offsets are still a running sum: consecutive entries differ by the glyph length plus at
+    most one padding byte, so no glyph overlaps the next -/
+theorem C12_glyph_offsets_step (l : Nat) (ls : List Nat) (cur : Nat) :
+    ∃ nxt, glyphOffsets cur (l :: ls) = cur :: glyphOffsets nxt ls ∧ cur + l ≤ nxt ∧ nxt ≤ cur + l + 1 := by
+  refine ⟨padEven (cur + l), rfl, ?_, ?_⟩ <;> unfold padEven <;> omega
+
+example : glyphOffsets 0 [41, 60, 0, 117] = [0, 42, 102, 102, 220] := by decide
+
+/-- counter-witness for the code BEFORE the repair (regression the per-run check must catch):
+    two glyphs of 41 and 60 bytes (41 = a 42-byte glyph whose 1-byte hinting program was
+    stripped) in the short format — the second glyph is read from offset 40, not 41 -/
 theorem C12_witness_short_loca_odd :
-    ¬ (readLoca true (locaEntries true (glyphOffsets 0 [41, 60])) = glyphOffsets 0 [41, 60]) := by
+    ¬ (readLoca true (locaEntries true (glyphOffsetsOld 0 [41, 60])) = glyphOffsetsOld 0 [41, 60]) := by
   decide
 
 /-- short format is only kept when it can address the table -/
@@ -345,5 +368,60 @@ theorem C12_short_format_fits (origShort : Bool) (total : Nat)
   omega
 
 example : useShort true ((glyphOffsets 0 [100, 30]).getLastD 0) = true := by decide
+
+
+/-! ## 5. Byte level (Model/C12Bytes.lean): the glyph loop, the loca bytes, the checksums
+
+The byte-level model reproduces the whole subset FILE (per-run comparison, byte for byte); the
+theorems below tie its glyph loop to the abstract `loca` statements above and pin the two
+repaired defects as regressions. -/
+
+/-- the byte-level glyph loop yields exactly the abstract offsets, hence (with
+    `C12_loca_short_roundtrip`) the short `loca` of every subset reads back exactly, whatever
+    the glyph BYTES are -/
+theorem C12_subset_loca_roundtrip_bytes (gs : List Bytes) :
+    readLoca true (locaEntries true (buildGlyf 0 gs).1) = (buildGlyf 0 gs).1 := by
+  rw [buildGlyf_offsets]
+  exact C12_loca_short_roundtrip _
+
+theorem C12_subset_glyph_offsets_even (gs : List Bytes) : ∀ o ∈ (buildGlyf 0 gs).1, o % 2 = 0 := by
+  rw [buildGlyf_offsets]
+  exact C12_glyph_offsets_even _ 0 rfl
+
+example : buildGlyf 0 [[1, 2, 3], [], [4, 5], [6]] = ([0, 4, 4, 6, 8], [1, 2, 3, 0, 4, 5, 6, 0]) := by decide
+
+/-- regression witness, byte level, for the code BEFORE the padding repair: a 3-byte glyph
+    followed by a 2-byte glyph in the short format reads back shifted -/
+theorem C12_witness_short_loca_odd_bytes :
+    ¬ (readLoca true (locaEntries true (buildGlyfOld 0 [[1, 2, 3], [4, 5]]).1) = (buildGlyfOld 0 [[1, 2, 3], [4, 5]]).1) := by
+  decide
+
+set_option maxRecDepth 1000000 in
+/-- regression witness for the code BEFORE the checkSumAdjustment repair: a file assembled
+    with the head table copied as it was (adjustment of the full font, here 09 09 09 09) does
+    not sum to 0xB1B0AFBA … -/
+theorem C12_witness_stale_adjustment :
+    checksum (assembleFontOld 65536 [[1, 2], [0, 1, 0, 0, 0, 0, 0, 0, 9, 9, 9, 9, 95, 15, 60, 245],
+      [3], [], [4, 4], [], [0, 3, 0, 0]]) ≠ 0xB1B0AFBA := by decide +kernel
+
+set_option maxRecDepth 1000000 in
+/-- … while the repaired assembly of the same tables (field cleared, then filled in) does. -/
+example : checksum (assembleFont 65536 [[1, 2], [0, 1, 0, 0, 0, 0, 0, 0, 0, 0, 0, 0, 95, 15, 60, 245],
+      [3], [], [4, 4], [], [0, 3, 0, 0]]) = 0xB1B0AFBA := by decide +kernel
+
+/-- byte-level composite handling on a concrete glyph: two components (word args + 2x2, then
+    byte args with WE_HAVE_INSTRUCTIONS and a 3-byte program): extraction, renumbering through
+    the glyph map (unmapped id -> .notdef), instruction stripping with the flag cleared -/
+def exComposite : Bytes :=
+  [255, 255, 0, 0, 0, 0, 1, 244, 1, 244,
+   0, 0xA3, 0, 7, 0, 1, 0, 2, 64, 0, 1, 0, 255, 0, 64, 0,      -- flags 0x00A3 gid 7, words, 2x2
+   1, 2, 0, 9, 5, 6,                                           -- flags 0x0102 gid 9, bytes, instr
+   0, 3, 1, 2, 3]
+
+example : extractComponents exComposite = [7, 9] := by decide
+example : extractComponents (remapComposite exComposite (remap? [0, 7, 8])) = [1, 0] := by decide
+example : stripInstructions exComposite =
+    [255, 255, 0, 0, 0, 0, 1, 244, 1, 244, 0, 0xA3, 0, 7, 0, 1, 0, 2, 64, 0, 1, 0, 255, 0, 64, 0,
+     0, 2, 0, 9, 5, 6] := by decide
 
 end OxiVerif.C12
